@@ -472,6 +472,46 @@ MODELS = {
 }
 
 
+def cstr_get(I, w, ci, args):
+    """str::get_unchecked / get on a constant string with a constant range"""
+    a, r = args[0], args[1]
+    if a[0] != 'cstr' or r[0] != 'adt':
+        return None
+    b = a[1]
+    nm = r[1].rsplit('::', 1)[-1]
+    vals = [int_singleton(x) if is_int(x) else None for x in r[3]]
+    if any(v is None for v in vals):
+        return None
+    res = None
+    if nm == 'RangeFrom' and vals[0] <= len(b):
+        res = b[vals[0]:]
+    elif nm == 'RangeTo' and vals[0] <= len(b):
+        res = b[:vals[0]]
+    elif nm == 'Range' and vals[0] <= vals[1] <= len(b):
+        res = b[vals[0]:vals[1]]
+    if res is None:
+        return None
+    if ci.npath.endswith('::get'):
+        return [(w, some(('cstr', res)))]
+    return [(w, ('cstr', res))]
+
+
+def cstr_starts_with(I, w, ci, args):
+    a, b = args[0], args[1]
+    for _ in range(3):
+        if a[0] == 'ref':
+            a = I.read(w, a[1])
+        if b[0] == 'ref':
+            b = I.read(w, b[1])
+    if a[0] == 'cstr' and b[0] == 'cstr':
+        return [(w, TRUE if a[1].startswith(b[1]) else FALSE)]
+    return None
+
+
+MODELS['core::str::<impl str>::get_unchecked'] = cstr_get
+MODELS['core::str::<impl str>::starts_with'] = cstr_starts_with
+
+
 def into_iter(I, w, ci, args):
     # `impl<I: Iterator> IntoIterator for I`: an iterator converts into itself
     if ci.nresolved == '<I as core::iter::traits::collect::IntoIterator>::into_iter':
